@@ -13,6 +13,7 @@ import (
 	"time"
 
 	simplefixgo "github.com/b2broker/simplefix-go"
+	"github.com/b2broker/simplefix-go/fix"
 	"github.com/b2broker/simplefix-go/session"
 	"github.com/b2broker/simplefix-go/session/messages"
 	"github.com/b2broker/simplefix-go/storages/memory"
@@ -130,7 +131,18 @@ func run(side int) {
 		case 0:
 			in("1\x01112=ping")
 		case 1:
-			in("2\x017=1\x0116=5")
+			if seq%2 == 0 {
+				in("2\x017=1\x0116=5")
+			} else {
+				// through the last message, while the senders are active: the batch holds the very message
+				// objects the senders are still encoding
+				cur, _ := store.GetCurrSeqNum(fix.StorageID{Side: fix.Outgoing})
+				from := cur - 10
+				if from < 1 {
+					from = 1
+				}
+				in(fmt.Sprintf("2\x017=%d\x0116=0", from))
+			}
 		case 2:
 			in("0")
 		default:
